@@ -1754,6 +1754,441 @@ fn locator_long_case(out: &mut Out, rng: &mut Rng, base: &std::path::Path, case_
     let _ = std::fs::remove_dir_all(&dir);
 }
 
+
+// =================================================================================================
+// locator (node level), common blocks: the real ActiveChain::{last_common_ancestor,
+// locate_latest_common_block}, Peers::{may_set_best_known_header, set_last_common_header, sync_connected,
+// disconnected} and BlockFetcher::update_last_common_header on a running node whose main chain is longer
+// than 50 blocks and reorganises A -> B -> A'
+// =================================================================================================
+//   nblk <id> <number> <parent>       -> ok        (block processed and stored by the node)
+//   lca <na> <a> <nb> <b>             -> <n/id|none>   (ActiveChain::last_common_ancestor)
+//   lcb <id>                          -> <n|none>  (get_locator(id) fed to locate_latest_common_block)
+//   lcbl <ids>                        -> <n|none>  (locate_latest_common_block on any list; ids >= 1000000 unknown)
+//   pconn|pdisc <peer>                -> best=<n/id/td|none> lc=<n/id|none> | nopeer
+//   pbest <peer> <n> <id> <td>        -> (same)    (Peers::may_set_best_known_header)
+//   pslc <peer> <n> <id>              -> (same)    (Peers::set_last_common_header)
+//   pulc <peer> <n> <id>              -> r=<n/id|none> (same)  (BlockFetcher::update_last_common_header)
+
+struct Com {
+    node: crate::node::Node,
+    builder: crate::node::ChainBuilder,
+    sync: Arc<ckb_sync::SyncShared>,
+    /// id -> (hash, number, parent id, stored)
+    hdrs: Vec<(Byte32, u64, u64, bool)>,
+    ids: HashMap<Byte32, u64>,
+    /// id -> total difficulty
+    tds: Vec<u64>,
+    main_tip: u64,
+    salt: u64,
+    reorgs: usize,
+    /// the harness's own plain record of the peers: best (id, td), last common id
+    peers: BTreeMap<u64, (Option<(u64, u64)>, Option<u64>)>,
+}
+
+impl Com {
+    fn num(&self, id: u64) -> u64 {
+        self.hdrs[id as usize].1
+    }
+    fn hash_of(&self, id: u64) -> Byte32 {
+        if (id as usize) < self.hdrs.len() { self.hdrs[id as usize].0.clone() } else { h(id) }
+    }
+    fn id_of(&self, x: &Byte32) -> u64 {
+        self.ids.get(x).copied().unwrap_or(u64::MAX)
+    }
+    fn walk(&self, mut id: u64, target: u64) -> Option<u64> {
+        if target > self.num(id) {
+            return None;
+        }
+        while self.num(id) > target {
+            id = self.hdrs[id as usize].2;
+        }
+        Some(id)
+    }
+    fn is_anc(&self, a: u64, of: u64) -> bool {
+        self.walk(of, self.num(a)) == Some(a)
+    }
+    fn on_main(&self, id: u64) -> bool {
+        self.is_anc(id, self.main_tip)
+    }
+    /// the latest common ancestor by plain parent steps
+    fn true_lca(&self, mut a: u64, mut b: u64) -> u64 {
+        while self.num(a) > self.num(b) {
+            a = self.hdrs[a as usize].2;
+        }
+        while self.num(b) > self.num(a) {
+            b = self.hdrs[b as usize].2;
+        }
+        while a != b {
+            a = self.hdrs[a as usize].2;
+            b = self.hdrs[b as usize].2;
+        }
+        a
+    }
+    /// `stored`: processed by the node; otherwise the header alone is handed to `insert_valid_header` as coming
+    /// from `peer` (which also offers it as that peer's best known header, with the header's total difficulty)
+    fn add(&mut self, out: &mut Out, parent: u64, stored: bool, peer: u64) -> u64 {
+        use crate::node::BlockSpec;
+        self.salt += 1;
+        let ph = self.hdrs[parent as usize].0.clone();
+        let blk = self.builder.build(&ph, &BlockSpec { salt: self.salt, ..Default::default() });
+        if stored {
+            assert!(self.hdrs[parent as usize].3, "stored block on a header-only parent");
+            assert_eq!(self.node.process(&blk), Ok(true), "valid block rejected");
+        } else {
+            self.sync.insert_valid_header(PeerIndex::new(peer as usize), &blk.header());
+        }
+        let id = self.hdrs.len() as u64;
+        self.hdrs.push((blk.hash(), blk.number(), parent, stored));
+        self.ids.insert(blk.hash(), id);
+        // total difficulty by the plain rule: the parent's plus the header's own difficulty
+        let td = self.tds[parent as usize] + blk.header().difficulty().0[0];
+        self.tds.push(td);
+        if stored {
+            out.op(&format!("nblk {id} {} {parent}", blk.number()), "ok");
+        } else {
+            if let Some(st) = self.peers.get_mut(&peer) {
+                match st.0 {
+                    Some((_, known)) if td <= known => {}
+                    _ => st.0 = Some((id, td)),
+                }
+            }
+            self.peer_check(out, peer, "nhdrp");
+            out.count("common-header-from-peer");
+            out.op(&format!("nhdrp {id} {} {parent} {peer} {td}", blk.number()), &self.peer_str(peer));
+        }
+        if stored {
+            let t = self.id_of(&self.node.tip_hash());
+            if t != self.main_tip {
+                if !self.is_anc(self.main_tip, t) {
+                    self.reorgs += 1;
+                    out.count("common-reorg");
+                }
+                self.main_tip = t;
+                out.op(&format!("main {t}"), &format!("ok {}", self.num(t) + 1));
+            }
+        }
+        id
+    }
+    fn nh(&self, n: u64, id: u64) -> BlockNumberAndHash {
+        BlockNumberAndHash::new(n, self.hash_of(id))
+    }
+    fn show_nh(&self, x: Option<BlockNumberAndHash>) -> String {
+        match x {
+            Some(b) => format!("{}/{}", b.number(), self.id_of(&b.hash())),
+            None => "none".into(),
+        }
+    }
+    fn q_lca(&self, out: &mut Out, na: u64, a: u64, nb: u64, b: u64) {
+        let chain = self.sync.active_chain();
+        let got = chain.last_common_ancestor(&self.nh(na, a), &self.nh(nb, b));
+        let known = |x: u64| (x as usize) < self.hdrs.len();
+        if known(a) && known(b) && na == self.num(a) && nb == self.num(b) {
+            // oracle: the true latest common ancestor
+            let want = self.true_lca(a, b);
+            if got.as_ref().map(|g| (g.number(), self.id_of(&g.hash()))) != Some((self.num(want), want)) {
+                out.oracle_fail("last-common-ancestor-not-lca", &format!("lca {a} {b}: got {} want {want}", self.show_nh(got.clone())));
+            }
+            out.count("common-lca");
+        } else {
+            out.count("common-lca-odd");
+        }
+        out.op(&format!("lca {na} {a} {nb} {b}"), &self.show_nh(got));
+    }
+    fn q_lcb(&self, out: &mut Out, id: u64) {
+        let chain = self.sync.active_chain();
+        let loc = chain.get_locator(self.nh(self.num(id), id));
+        let got = chain.locate_latest_common_block(&Byte32::zero(), &loc);
+        let fork = self.true_lca(id, self.main_tip);
+        let lids: Vec<u64> = loc.iter().map(|x| self.id_of(x)).collect();
+        let first = lids.iter().copied().find(|e| self.on_main(*e)).expect("genesis");
+        // the branch above the fork is stored throughout / the fork point is a locator entry
+        let mut all_stored = true;
+        let mut c = id;
+        while c != fork {
+            all_stored &= self.hdrs[c as usize].3;
+            c = self.hdrs[c as usize].2;
+        }
+        match got {
+            Some(r) => {
+                // oracle: a common block (on the main chain at or below the fork point), not below the first
+                // locator entry on the main chain; exactly the fork point when the fork point is a locator
+                // entry, or the branch is stored and the first entry on the main chain is not genesis
+                if r > self.num(fork) || r < self.num(first) {
+                    out.oracle_fail("located-block-not-common", &format!("lcb {id}: got {r} fork {} first-on-main {}", self.num(fork), self.num(first)));
+                }
+                // (the code answers 0 at once when the first entry on the main chain is genesis)
+                if ((all_stored && self.num(first) != 0) || lids.contains(&fork)) && r != self.num(fork) {
+                    out.oracle_fail("located-block-not-latest", &format!("lcb {id}: got {r} fork {} (stored branch={all_stored})", self.num(fork)));
+                }
+                if r == self.num(fork) { out.count("common-lcb-exact"); } else { out.count("common-lcb-below-fork"); }
+            }
+            None => out.oracle_fail("located-block-missing", &format!("lcb {id}: none for the node's own locator")),
+        }
+        out.op(&format!("lcb {id}"), &got.map(|x| x.to_string()).unwrap_or("none".into()));
+    }
+    fn q_lcbl(&self, out: &mut Out, l: &[u64]) {
+        let chain = self.sync.active_chain();
+        let loc: Vec<Byte32> = l.iter().map(|x| self.hash_of(*x)).collect();
+        let got = chain.locate_latest_common_block(&Byte32::zero(), &loc);
+        // oracle: an answer only for a list that ends in genesis, and then a main-chain number
+        let well_ended = l.last() == Some(&0);
+        if got.is_some() != well_ended || got.map_or(false, |r| r > self.num(self.main_tip)) {
+            out.oracle_fail("locate-any-list", &format!("lcbl {l:?}: got {got:?}"));
+        }
+        out.count("common-lcbl");
+        out.op(&format!("lcbl {}", show(l.iter().copied())), &got.map(|x| x.to_string()).unwrap_or("none".into()));
+    }
+    fn peer_str(&self, p: u64) -> String {
+        let peers = self.sync.state().peers();
+        let pi = PeerIndex::new(p as usize);
+        if peers.get_flag(pi).is_none() {
+            return "nopeer".into();
+        }
+        let best = match peers.get_best_known_header(pi) {
+            Some(hi) => format!("{}/{}/{}", hi.number(), self.id_of(&hi.hash()), hi.total_difficulty()),
+            None => "none".into(),
+        };
+        format!("best={best} lc={}", self.show_nh(peers.get_last_common_header(pi)))
+    }
+    /// oracle on the peers record: compare the node's answers with the plain record
+    fn peer_check(&self, out: &mut Out, p: u64, what: &str) {
+        let peers = self.sync.state().peers();
+        let pi = PeerIndex::new(p as usize);
+        let real = if peers.get_flag(pi).is_none() {
+            None
+        } else {
+            Some((
+                peers.get_best_known_header(pi).map(|hi| (self.id_of(&hi.hash()), hi.total_difficulty().0[0])),
+                peers.get_last_common_header(pi).map(|b| self.id_of(&b.hash())),
+            ))
+        };
+        if real != self.peers.get(&p).cloned() {
+            out.oracle_fail("peer-headers-record", &format!("{what} peer {p}: node {real:?} record {:?}", self.peers.get(&p)));
+        }
+    }
+    fn p_conn(&mut self, out: &mut Out, p: u64) {
+        self.sync.state().peers().sync_connected(PeerIndex::new(p as usize), p % 2 == 0, false, true);
+        self.peers.entry(p).or_insert((None, None));
+        self.peer_check(out, p, "pconn");
+        out.op(&format!("pconn {p}"), &self.peer_str(p));
+    }
+    fn p_disc(&mut self, out: &mut Out, p: u64) {
+        self.sync.state().peers().disconnected(PeerIndex::new(p as usize));
+        self.peers.remove(&p);
+        self.peer_check(out, p, "pdisc");
+        out.op(&format!("pdisc {p}"), &self.peer_str(p));
+    }
+    fn p_best(&mut self, out: &mut Out, p: u64, id: u64, td: u64) {
+        use ckb_shared::types::HeaderIndex;
+        let hi = HeaderIndex::new(self.num(id), self.hash_of(id), U256::from(td));
+        self.sync.state().peers().may_set_best_known_header(PeerIndex::new(p as usize), hi);
+        // plain rule: only a peer with state; only strictly more total difficulty replaces
+        if let Some(st) = self.peers.get_mut(&p) {
+            match st.0 {
+                Some((_, known)) if td <= known => {}
+                _ => st.0 = Some((id, td)),
+            }
+        }
+        self.peer_check(out, p, "pbest");
+        out.count("common-pbest");
+        out.op(&format!("pbest {p} {} {id} {td}", self.num(id)), &self.peer_str(p));
+    }
+    fn p_slc(&mut self, out: &mut Out, p: u64, id: u64) {
+        self.sync.state().peers().set_last_common_header(PeerIndex::new(p as usize), self.nh(self.num(id), id));
+        if let Some(st) = self.peers.get_mut(&p) {
+            st.1 = Some(id);
+        }
+        self.peer_check(out, p, "pslc");
+        out.op(&format!("pslc {p} {} {id}", self.num(id)), &self.peer_str(p));
+    }
+    fn p_ulc(&mut self, out: &mut Out, p: u64, best: u64) {
+        let known = (best as usize) < self.hdrs.len();
+        let bn = if known { self.num(best) } else { 7 };
+        let f = ckb_sync::VerifBlockFetcher::new(Arc::clone(&self.sync), PeerIndex::new(p as usize), ckb_sync::IBDState::Out);
+        let got = f.update_last_common_header(&self.nh(bn, best));
+        drop(f);
+        let prev = self.peers.get(&p).and_then(|st| st.1);
+        if known {
+            // oracle: the new last common header is the latest common ancestor of the previous one (or, without
+            // one, of our main-chain block at min(tip, best)) and the peer's best header: an ancestor of both
+            let from = prev.unwrap_or_else(|| self.walk(self.main_tip, self.num(self.main_tip).min(bn)).unwrap());
+            let want = self.true_lca(from, best);
+            let g = got.as_ref().map(|g| self.id_of(&g.hash()));
+            if g != Some(want) {
+                out.oracle_fail("last-common-header-not-common-ancestor", &format!("pulc {p} {best}: got {g:?} want {want} (previous {prev:?})"));
+            }
+            if let Some(st) = self.peers.get_mut(&p) {
+                st.1 = Some(want);
+            }
+            if prev.map_or(false, |x| !self.is_anc(x, best)) {
+                out.count("common-pulc-went-back");
+            }
+            if prev.is_none() {
+                out.count("common-pulc-bootstrap");
+            }
+        } else if got.is_some() {
+            out.oracle_fail("last-common-header-unknown-best", &format!("pulc {p} {best}: got {}", self.show_nh(got.clone())));
+        }
+        self.peer_check(out, p, "pulc");
+        out.count("common-pulc");
+        out.op(&format!("pulc {p} {bn} {best}"), &format!("r={} {}", self.show_nh(got), self.peer_str(p)));
+    }
+    fn queries(&mut self, out: &mut Out, rng: &mut Rng, leaves: &[u64], n: usize) {
+        let total = self.hdrs.len() as u64;
+        let pick = |rng: &mut Rng, me: &Com| -> u64 {
+            match rng.below(4) {
+                0 => *rng.pick(leaves),
+                1 => { let l = *rng.pick(leaves); me.walk(l, me.num(l).saturating_sub(rng.below(14))).unwrap() }
+                _ => rng.below(total),
+            }
+        };
+        for q in 0..n {
+            match rng.below(10) {
+                0..=2 => {
+                    let (a, b) = (pick(rng, self), pick(rng, self));
+                    let (mut na, nb) = (self.num(a), self.num(b));
+                    if rng.chance(1, 12) {
+                        // an inconsistent number (>= 1) on one side: the code takes the caller's number
+                        na = 1 + rng.below(na + 3);
+                    }
+                    self.q_lca(out, na, a, nb, b);
+                    if rng.chance(1, 15) {
+                        self.q_lca(out, 7, 1_000_000 + q as u64, nb, b);
+                    }
+                }
+                3..=4 => {
+                    let id = if q < leaves.len() { leaves[q] } else { pick(rng, self) };
+                    self.q_lcb(out, id);
+                }
+                5 => {
+                    // any list: a real locator with entries dropped, unknown hashes put in, or cut short
+                    let id = pick(rng, self);
+                    let chain = self.sync.active_chain();
+                    let mut l: Vec<u64> = chain.get_locator(self.nh(self.num(id), id)).iter().map(|x| self.id_of(x)).collect();
+                    drop(chain);
+                    match rng.below(6) {
+                        0 => { l.pop(); }
+                        1 => { l.clear(); }
+                        2 => { let k = rng.below(l.len() as u64) as usize; l.insert(k, 1_000_000 + q as u64); }
+                        3 => { let k = rng.below(l.len() as u64) as usize; l[k] = pick(rng, self); if k + 1 == l.len() { l.push(0); } }
+                        4 => { l = vec![1_000_000, pick(rng, self), 0]; }
+                        _ => { l.retain(|_| rng.chance(2, 3)); l.push(0); }
+                    }
+                    self.q_lcbl(out, &l);
+                }
+                6 => {
+                    let p = rng.below(4);
+                    if rng.chance(1, 3) { self.p_disc(out, p) } else { self.p_conn(out, p) }
+                }
+                7 => {
+                    let p = rng.below(4);
+                    let id = pick(rng, self);
+                    let known = self.peers.get(&p).and_then(|st| st.0).map(|x| x.1);
+                    let td = match (known, rng.below(4)) {
+                        (Some(k), 0) => k,
+                        (Some(k), 1) => k + 1,
+                        (Some(k), 2) => k.saturating_sub(1),
+                        _ => self.num(id) * 2 + rng.below(3),
+                    };
+                    self.p_best(out, p, id, td);
+                }
+                8 => {
+                    let p = rng.below(4);
+                    let id = pick(rng, self);
+                    self.p_slc(out, p, id);
+                }
+                _ => {
+                    let p = rng.below(4);
+                    let best = match (self.peers.get(&p).and_then(|st| st.0), rng.below(8)) {
+                        (_, 0) => 1_000_000 + q as u64,
+                        (Some((b, _)), 1..=5) => b,
+                        _ => pick(rng, self),
+                    };
+                    self.p_ulc(out, p, best);
+                }
+            }
+        }
+    }
+}
+
+fn common_case(out: &mut Out, rng: &mut Rng, base: &std::path::Path, case_no: usize) {
+    use crate::node::*;
+    let cfg = NodeCfg { epoch_len: 1000, genesis_cells: 1, with_pool: false, ..Default::default() };
+    let consensus = make_consensus(&cfg);
+    let dir = base.join(format!("com{case_no}"));
+    let node = Node::start(&dir.join("node"), consensus.clone(), &cfg);
+    let builder = ChainBuilder::new(consensus.clone(), &dir.join("builder"));
+    let (_tx, rx) = ckb_channel::unbounded();
+    let sync = Arc::new(ckb_sync::SyncShared::new(node.shared.clone(), Default::default(), rx));
+    out.begin_case("locator common blocks");
+    let mut c = Com {
+        node, builder, sync,
+        hdrs: vec![(consensus.genesis_hash(), 0, 0, true)],
+        ids: HashMap::new(),
+        tds: vec![consensus.genesis_block().header().difficulty().0[0]],
+        main_tip: 0, salt: 1_000 * case_no as u64, reorgs: 0, peers: BTreeMap::new(),
+    };
+    c.ids.insert(consensus.genesis_hash(), 0);
+    out.op("nblk 0 0 0", "ok");
+    out.op("main 0", "ok 1");
+    // chain A: longer than 50 blocks, so that its locator is past the ten single steps and doubles its stride
+    let m = rng.range(52, 70);
+    let mut a_tip = 0;
+    for _ in 0..m {
+        a_tip = c.add(out, a_tip, true, 0);
+    }
+    // stored branch B forking at a depth around the locator's resolution edges (9, 10, 11, 12, 14, 18, 26 below the tip)
+    let depth = *rng.pick(&[1u64, 2, 8, 9, 10, 11, 12, 13, 14, 15, 18, 19, 26, 27, 40]);
+    let fork = c.walk(a_tip, m - depth.min(m)).unwrap();
+    let mut b_tip = fork;
+    for _ in 0..rng.range(1, depth.max(2) - 1).max(1) {
+        b_tip = c.add(out, b_tip, true, 0);
+    }
+    for p in 0..3 {
+        c.p_conn(out, p);
+    }
+    // header-only branches: off A, off B, off an older main block
+    let mut leaves = vec![a_tip, b_tip];
+    for k in 0..3 {
+        let from = match k { 0 => a_tip, 1 => b_tip, _ => c.walk(a_tip, rng.below(m)).unwrap() };
+        let mut t = from;
+        for _ in 0..rng.range(1, 25) {
+            t = c.add(out, t, false, rng.below(4));
+        }
+        leaves.push(t);
+    }
+    c.queries(out, rng, &leaves, 40);
+    // reorganise to B: B grows past A
+    while c.main_tip == a_tip || c.is_anc(c.main_tip, a_tip) {
+        b_tip = c.add(out, b_tip, true, 0);
+    }
+    for _ in 0..rng.below(3) {
+        b_tip = c.add(out, b_tip, true, 0);
+    }
+    leaves[1] = b_tip;
+    c.queries(out, rng, &leaves, 40);
+    // and back: A' grows past B
+    while c.is_anc(c.main_tip, b_tip) {
+        a_tip = c.add(out, a_tip, true, 0);
+    }
+    leaves[0] = a_tip;
+    let mut t = a_tip;
+    for _ in 0..rng.range(1, 12) {
+        t = c.add(out, t, false, rng.below(4));
+    }
+    leaves.push(t);
+    c.queries(out, rng, &leaves, 40);
+    if c.reorgs >= 2 {
+        out.nontrivial(format!("common m={m} depth={depth} headers={} reorgs={}", c.hdrs.len(), c.reorgs));
+    }
+    let Com { node, builder, sync, .. } = c;
+    drop(sync);
+    node.stop();
+    drop(builder);
+    let _ = std::fs::remove_dir_all(&dir);
+}
+
 fn run_locator(opts: &Opts, out: &mut Out) -> &'static str {
     let mut rng = Rng::new(opts.seed);
     let base = crate::node::scratch_dir(&opts.out, "c17loc");
@@ -1765,9 +2200,14 @@ fn run_locator(opts: &Opts, out: &mut Out) -> &'static str {
     for i in 0..longs {
         locator_long_case(out, &mut rng, &base, i);
     }
+    let commons = if opts.thorough() { 60 } else { 3 } * opts.scale as usize;
+    for i in 0..commons {
+        common_case(out, &mut rng, &base, i);
+    }
     let _ = std::fs::remove_dir_all(&base);
-    "locator: every case (a real main chain of 12..45 blocks plus stored and header-only branches; and a header-only chain ending above 8192 with a fork, locators taken on the running node; distinct by shape)"
+    "locator: every case (a real main chain of 12..45 blocks plus stored and header-only branches; and a header-only chain ending above 8192 with a fork, locators taken on the running node; distinct by shape); common-block cases count when the node (main chain of 52..70 stored blocks) reorganised to the stored branch and back"
 }
+
 
 // =================================================================================================
 
